@@ -1629,3 +1629,22 @@ package ir
 //@   assigns nothing
 //@   ensures len(result) == 0
 //@ # ==== generated: end ====
+
+//@ # ==== generated by /verif/tools/gen_gep_contracts.py: begin ====
+//@ # ---------------------------------------------------------------- C07 ---
+//@ # getIndex: the same contract for every copy (macros in specs/llvm_gep.spec).
+//@ func getIndex
+//@   props C07
+//@   requires index != nil && gkind(gunwrap(index)) && gwf(gunwrap(index))
+//@   assigns nothing
+//@   ensures !result.Scalable
+//@   ensures typeis(gunwrap(index), "*constant.Int") ==> result.HasVal && result.Val == gival(gunwrap(index)) && result.VectorLen == 0
+//@   ensures typeis(gunwrap(index), "*constant.ZeroInitializer") ==> result.HasVal && result.Val == 0 && result.VectorLen == 0
+//@   ensures typeis(gunwrap(index), "*constant.Vector") ==> result.VectorLen == len(cast(gunwrap(index), "*constant.Vector").Elems)
+//@   ensures typeis(gunwrap(index), "*constant.Vector") ==> (result.HasVal <==> (len(cast(gunwrap(index), "*constant.Vector").Elems) > 0 && gsplat(cast(gunwrap(index), "*constant.Vector"))))
+//@   ensures typeis(gunwrap(index), "*constant.Vector") && result.HasVal ==> result.Val == gival(cast(gunwrap(index), "*constant.Vector").Elems[0])
+//@   ensures !typeis(gunwrap(index), "*constant.Int") && !typeis(gunwrap(index), "*constant.ZeroInitializer") && !typeis(gunwrap(index), "*constant.Vector") ==> !result.HasVal && result.VectorLen == 0
+//@   loop 0: invariant 0 <= range_i && range_i <= len(index.Elems)
+//@   loop 0: invariant forall(j, 0, range_i, typeis(index.Elems[j], "*constant.Int") && gival(index.Elems[j]) == gival(index.Elems[0]))
+//@   loop 0: invariant range_i > 0 ==> val == gival(index.Elems[0])
+//@ # ==== generated by /verif/tools/gen_gep_contracts.py: end ====
